@@ -23,17 +23,32 @@
         NotAnElementError:  C17_missing_contract (ALL identifiers/tables), C17_untabulated_element_contract (every
         periodic-table row without entry x alias forms x cases), C17_non_atom_rejected, C17_public_missing_contract (gen, both
         classes), C17_fails_closed.
+        Wave 4: C17_every_variant_bounded_by_its_bare_element (the same clause read from the variants' side: EVERY source
+        row E_xxx has a bare entry E whose value is >= its own — the form the oracle checks on the implementation's answers).
     (e) the public entry points ARE the model:  C17_generated_get_is_model (covalentradii.get and vdwradii.get as translated
         = Model/Radii.get for all tables, identifiers, fallbacks, return forms, factors), C17_generated_to_units
-        (Datum.to_units as translated = conversion_factor(own unit, requested or own unit) x payload).
-    Only correspondence / oracle: Datum.to_units on array payloads and float rounding (2^-51 relative, bit-exact in the
-    Python oracle); that no call leaves state behind (history streams); pydantic construction of Datum; the unit factors
-    other than Angstrom->Bohr (sanity-checked in the oracle; C03's subject). *)
+        (Datum.to_units as translated = conversion_factor(own unit, requested or own unit) x payload).  Wave 4:
+        C17_generated_init_is_model (the table construction of both __init__ methods as translated by
+        harness/translate/radiiinit.py into Gen/RadiiInit.v — item assignments in a loop over the source rows, then over the
+        aliases literal — answers every lookup like the hand-written cov_table / vdw_table, for ANY source tables, and the
+        translated get on the translated table is the model), C17_item_assignment_loop (the reading of `d[k] = v` in a loop
+        as "last assignment wins", for all rows / keys / values).
+    OUT OF THE MODEL (correspondence / oracle only): Datum.to_units on ARRAY payloads — the Gallina model knows scalar
+        payloads only; arrays of every numeric dtype (bool, int8..uint64, both byte orders, float32/64, complex64/128), 0-d to
+        2-d, empty, Fortran-ordered, strided, transposed and read-only are judged by the Python oracle alone: element by
+        element against the exact rational product within the rounding of the result's precision, result type, bit-exact
+        IEEE product, repeatability, payload untouched and unshared.  Also oracle only: float rounding of scalar to_units
+        (2^-51 relative, bit-exact in the Python oracle); that no call leaves state behind (history streams); pydantic
+        construction of Datum; the unit factors other than Angstrom->Bohr (sanity-checked in the oracle; C03's subject).
+        "bare element = largest variant" is ALSO checked on the implementation's own answers (bare answer = max of the answers
+        for its special labels, same unit / return form) and against the source rows whether or not the source table carries
+        a row for the bare symbol. *)
 From Coq Require Import ZArith QArith List String Bool.
 Require Import QV.Common.Outcome QV.Common.PyAscii.
 Require Import QV.Common.DecC02.
 Require Import QV.Gen.PTable QV.Gen.Radii QV.Model.PeriodicTable QV.Model.Radii QV.Model.RadiiUnits.
 Require Import QV.Model.PeriodicTableGlue QV.Model.RadiiGlue QV.Gen.RadiiGlue.
+Require Import QV.Model.RadiiInit QV.Gen.RadiiInit QV.Proofs.RadiiInit.
 Require Import QV.Proofs.PeriodicTable QV.Proofs.PeriodicTableReject QV.Proofs.Radii QV.Proofs.RadiiUnits QV.Proofs.RadiiWave3 QV.Proofs.RadiiGlue.
 Import ListNotations.
 Open Scope Z_scope.
@@ -334,6 +349,57 @@ Proof.
   - vm_compute. tauto.
 Qed.
 
+(** Wave 4.  "The bare element means the largest variant", from the variants' side: EVERY special label E_xxx of the source
+    table belongs to an element E of the periodic table whose bare entry exists and carries a value >= the label's own. *)
+Theorem C17_every_variant_bounded_by_its_bare_element :
+  forall l v c, In (l, v, c) cov_rows -> has_underscore l = true ->
+    exists idn e d dv, prefixb (idn ++ "_") l = true /\ In idn pt_E /\
+      tbl_get cov_table idn = Some e /\ en_data e = Some d /\ en_label e = idn /\
+      dec_of_string v = Some dv /\ dec_le dv d = true.
+Proof.
+  intros l v c I U. destruct (variant_has_generic l v c I U) as [[idn [u [src [c' [A [P E]]]]]] _].
+  destruct (alias_largest idn u src c' A) as [e [es [d [_ [T [_ [D [_ [Lb [_ B]]]]]]]]]].
+  destruct (B l v c I P) as [dv [Dv L]]. exists idn, e, d, dv. repeat split; assumption.
+Qed.
+
+(** The table construction of both __init__ methods as TRANSLATED from the source on every run (item assignments in a loop
+    over the source rows, then — covalent set — over the aliases literal, whose data are read from the rows loaded so far)
+    answers every lookup like the hand-written tables of Model/Radii.v, for ANY source tables; on the shipped tables the
+    dictionaries are the model's lists themselves (same keys, same order); hence the whole public path (translated
+    __init__, then translated get) is the model's [get] on the model's tables. *)
+Theorem C17_generated_init_is_model :
+  (forall k, tbl_get g_cov_init k = tbl_get cov_table k) /\
+  (forall k, tbl_get g_vdw_init k = tbl_get vdw_table k) /\
+  (g_cov_init = cov_table /\ g_vdw_init = vdw_table) /\
+  forall (M : Type) x (missing : option M) rt f,
+    g_cov_get g_cov_init x missing rt f = omap embed (get cov_table x missing rt f) /\
+    g_vdw_get g_vdw_init x missing rt f = omap embed (get vdw_table x missing rt f).
+Proof.
+  split; [exact g_cov_init_lookup|]. split; [exact g_vdw_init_lookup|]. split; [exact g_init_shipped|].
+  intros M x missing rt f. apply generated_init_and_get_is_model.
+Qed.
+
+(** Item assignment in a loop, in general: whatever the rows, keys and values, every lookup in the resulting dict sees the
+    assignments in order, a later one to the same key winning (the model's reading of __init__). *)
+Theorem C17_item_assignment_loop :
+  forall (V R : Type) (K : R -> string) (W : R -> V) rows k0,
+    alist_get k0 (fold_left (fun d r => dict_set d (K r) (W r)) rows []) None =
+    alist_get k0 (map (fun r => (K r, W r)) rows) None.
+Proof.
+  intros V R K W rows k0.
+  destruct (fold_dict_set (fun d r => dict_set d (K r) (W r)) K W (fun d r => eq_refl) rows [] eq_refl) as [_ G].
+  exact (G k0).
+Qed.
+
+(** Non-vacuity: an assignment to an existing key keeps its place and replaces the value; the translated covalent table has
+    the bare iron entry with the high-spin value. *)
+Example C17_ex_wave4 :
+  dict_set [("a", 1); ("b", 2)]%string "a"%string 3 = [("a", 3); ("b", 2)]%string /\
+  dict_set [("a", 1)]%string "b"%string 2 = [("a", 1); ("b", 2)]%string /\
+  option_map en_data (tbl_get g_cov_init "Fe") = option_map en_data (tbl_get g_cov_init "Fe_highspin") /\
+  tbl_mem g_cov_init "Fe" = true.
+Proof. vm_compute. repeat split; reflexivity. Qed.
+
 Print Assumptions C17_radius_by_element.
 Print Assumptions C17_alias_invariant_radius.
 Print Assumptions C17_special_labels_own_entry.
@@ -356,3 +422,6 @@ Print Assumptions C17_untabulated_element_contract.
 Print Assumptions C17_non_atom_rejected.
 Print Assumptions C17_special_labels_are_variants.
 Print Assumptions C17_special_label_wrong_case_rejected.
+Print Assumptions C17_every_variant_bounded_by_its_bare_element.
+Print Assumptions C17_generated_init_is_model.
+Print Assumptions C17_item_assignment_loop.
